@@ -624,7 +624,7 @@ def _allocatable(run, P):
 
 
 def check(run, P):
-    _check_main(run, P)
+    run.do(_check_main, run, P)
     from . import generic
     generic.lints(run, P, "C12")
 
